@@ -414,23 +414,28 @@ func (p *ParagraphReader) decodeClearsig(keyring *openpgp.EntityList) error {
 // The armor reader takes a line of five bytes that starts with '=' for the
 // checksum line; where the four characters behind the '=' are base64 for
 // fewer than three bytes it goes on as if the line were not there. Report
-// such a line in the body of the signature armor.
+// such a line anywhere behind the line that begins the signature of the
+// clearsigned message (the armor reader finds the headers, the body and
+// their ends in its own way: no line there may be one it would skip).
 func armorChecksumLineOK(armored []byte) bool {
-	begin := bytes.LastIndex(armored, []byte("-----BEGIN PGP SIGNATURE-----"))
-	if begin < 0 {
-		return true
+	message := []byte("-----BEGIN PGP SIGNED MESSAGE-----")
+	if !bytes.HasPrefix(armored, message) {
+		start := bytes.Index(armored, append([]byte("\n"), message...))
+		if start < 0 {
+			return true
+		}
+		armored = armored[start+1:]
 	}
-	body := false
-	for _, line := range bytes.Split(armored[begin:], []byte("\n")) {
+	signature := false
+	for _, line := range bytes.Split(armored, []byte("\n")) {
 		line = bytes.TrimSuffix(line, []byte("\r"))
-		if !body {
-			/* The armor headers end at the first empty line. */
-			body = len(line) == 0
+		if !signature {
+			signature = bytes.HasPrefix(line, []byte("-----BEGIN PGP SIGNATURE-----"))
 			continue
 		}
 		if len(line) == 5 && line[0] == '=' {
 			var sum [3]byte
-			if n, err := base64.StdEncoding.Decode(sum[:], line[1:]); err != nil || n != 3 {
+			if n, err := base64.StdEncoding.Decode(sum[:], line[1:]); err == nil && n != 3 {
 				return false
 			}
 		}
